@@ -257,7 +257,7 @@ def _defaults(fn):
 
 
 def item_narrow(repo, out):
-    """_narrow: the order of the kind / size tests, the dtype of an empty array and the threshold table
+    """_narrow: the kind test comes first (np.array([]) is float64: ValueError), the dtype of an empty array and the threshold table
     (comparison operator, threshold, width) of the if-chain; `low < 0` keeps the dtype."""
     rel = 'katdal/vis_flags_weights.py'
     fn = _find_func(_parse(repo, rel), '_narrow', rel)
@@ -269,8 +269,9 @@ def item_narrow(repo, out):
     norm = [_norm(s) for s in body]
     if len(body) != 3 or norm[2] != 'returnarray.astype(dtype,copy=False)' or kind not in norm[:2]:
         raise TranslateError('%s: _narrow is not (kind test, size/if-chain, astype): %s' % (rel, norm))
-    kind_first = norm[0] == kind
-    chain = body[1] if kind_first else body[0]
+    if norm[0] != kind:
+        raise TranslateError('%s: _narrow: the kind test is not the first statement' % rel)
+    chain = body[1]
     if not (isinstance(chain, ast.If) and _norm(chain.test) == 'notarray.size' and len(chain.body) == 1
             and isinstance(chain.body[0], ast.Assign) and _norm(chain.body[0].targets[0]) == 'dtype'
             and _norm(chain.body[0].value) in _UINT_BITS):
@@ -300,7 +301,6 @@ def item_narrow(repo, out):
         else:
             raise TranslateError('%s: _narrow: final else is not `dtype = array.dtype`' % rel)
     out.append('(* katdal/vis_flags_weights.py _narrow: (is `<=`, threshold, bits of the unsigned type) *)')
-    out.append('Definition narrow_kind_before_size : bool := %s.' % ('true' if kind_first else 'false'))
     out.append('Definition narrow_empty_bits : Z := (%d)%%Z.' % empty_bits)
     out.append('Definition narrow_table : list (bool * Z * Z) := [%s].'
                % '; '.join('(%s, (%d)%%Z, (%d)%%Z)' % ('true' if le else 'false', th, b) for le, th, b in table))
